@@ -340,6 +340,11 @@ impl LpgStore {
         EpochId::new(self.current_epoch.load(Ordering::Acquire))
     }
 
+    /// Advances the store epoch to at least `epoch` (never moves it backwards).
+    pub fn sync_epoch(&self, epoch: EpochId) {
+        self.current_epoch.fetch_max(epoch.as_u64(), Ordering::AcqRel);
+    }
+
     /// Creates a new epoch.
     pub fn new_epoch(&self) -> EpochId {
         let id = self.current_epoch.fetch_add(1, Ordering::AcqRel) + 1;
